@@ -24,6 +24,9 @@ def spec_of(a):
 def run(chk, repo, tier):
     from .common import no_hidden_state
     no_hidden_state(chk, repo, 'C16')
+    chk.clause('C16-o', 'the detector chain leaves the frames and efficiencies it is given untouched', 5)
+    from .common import operands_untouched
+    operands_untouched(chk, repo, 'C16-o', ['detector.collect_charge', 'detector.collect_charge_bayer', 'detector.adc', 'detector.pixelate', 'detector.pixel', 'detector.qe_asarray'], allow=[])
     chk.clause('C16-a', "charge is the sum over the wavelength axis only: einsum('ijk,i->jk')", 4)
     chk.clause('C16-b', 'every efficiency goes through qe_asarray, which forwards waveunit to Spectrum.sample', 5)
     chk.clause('C16-c', 'the three colour blocks are equal modulo colour; flatten = sum of the three', 4)
